@@ -42,7 +42,7 @@ LEVEL_NOTE = (
 TECHNIQUE = ("Lean 4 proof (structural induction over expression trees; finite case analysis over the 11x11 type pairs; omega on the "
              "wrap arithmetic; bitwise operators by testBit extensionality) about a hand model + table translation (decide against "
              "dumped live tables) + differential correspondence of the real front-end with the model")
-RULE = ("trees: fixed corpus (all past defects, boundaries) then random trees of depth <= 4 (quick, 600 trees) / 5 (thorough, 4000 trees) over constants "
+RULE = ("trees: fixed corpus (all past defects, boundaries) then random trees of depth <= 4 (quick, 600 trees) / 5 (thorough, 4000 trees) and 7 / 40 trees per binary operator with both operands beyond 2^53 at the 64-bit types over constants "
         "{0..12, 2^k-1, 2^k, 2^k+1 at k=7,8,15,16,31,32,63,64, random bits, values without a type} x bases x suffixes, character "
         "constants 0..255, all operators, casts to the 11 types; contexts: initialiser of each of the 11 types, case label under each "
         "controlling type, enumerator, array size. distinct = distinct (context, type, tree). non-trivial = the expression has a "
@@ -231,6 +231,19 @@ CORPUS = [
     ("case", "ushort", L(65536)), ("case", "int", ("C", 97)),
     ("enum", "int", B("add", L(3), L(4))), ("enum", "int", neg(L(5))), ("enum", "int", L(2147483647)),
     ("enum", "int", B("shl", L(1, "u"), L(31))), ("enum", "int", K("uchar", L(511))),
+    # operands beyond 2^53 (not representable as a double)
+    ("init", "int", B("mod", L(9223372036854775807, "ll"), L(10))),
+    ("init", "int", B("mod", L(18446744073709551615, "ull"), L(1000, "ull"))),
+    ("init", "int", B("mod", L(9007199254740993, "ll"), L(4))),
+    ("init", "llong", B("mod", neg(L(9223372036854775807, "ll")), L(1000003))),
+    ("init", "llong", B("div", L(9223372036854775807, "ll"), L(3))),
+    ("init", "ullong", B("div", L(18446744073709551615, "ull"), L(10, "ull"))),
+    ("init", "ullong", B("mul", L(6148914691236517205, "ull"), L(3, "ull"))),
+    ("init", "int", B("lt", L(9007199254740993, "ll"), L(9007199254740992, "ll"))),
+    ("init", "int", B("eq", L(18446744073709551615, "ull"), L(18446744073709551614, "ull"))),
+    ("init", "llong", B("shr", L(9223372036854775807, "ll"), L(9))),
+    ("init", "ullong", B("shl", L(9007199254740993, "ull"), L(10))),
+    ("init", "llong", B("sub", L(9223372036854775807, "ll"), L(9007199254740993, "ll"))),
     # enum / pointer objects (CContext.pack on EnumType and PointerType)
     ("einit", "int", neg(L(1))), ("einit", "int", L(4294967295, "u")), ("einit", "int", L(2147483648)),
     ("einit", "int", B("sub", L(3), L(5))), ("einit", "int", L(7)), ("einit", "int", neg(L(2147483648))),
@@ -278,6 +291,19 @@ def _mathematical(e):
                 "ne": lambda: int(a != b), "land": lambda: int(bool(a and b)), "lor": lambda: int(bool(a or b))}[op]()
     except Exception:  # noqa
         return None
+
+
+def gen_wide_cases(ctx, per_op):
+    """every binary operator with operands beyond 2^53 (a detour through double precision shows), as initialiser of
+    the 64-bit types"""
+    cases = []
+    for op in X.BINOPS:
+        for _ in range(per_op):
+            e = X.gen_wide_binop(ctx.rng, op)
+            if ctx.rng.random() < 0.3:
+                e = ("B", ctx.rng.choice(["add", "bxor", "sub"]), e, X.gen_lit(ctx.rng))
+            cases.append(("init", ctx.rng.choice(["llong", "ullong", "long", "ulong", "int"]), e))
+    return cases
 
 
 def gen_cases(ctx, n, depth):
@@ -361,7 +387,8 @@ def minimal_failing(ctx, kind, ty, e):
 
 
 def check(ctx):
-    cases = list(CORPUS) + gen_cases(ctx, 4000 if ctx.thorough else 600, 5 if ctx.thorough else 4)
+    cases = (list(CORPUS) + gen_wide_cases(ctx, 40 if ctx.thorough else 7)
+             + gen_cases(ctx, 4000 if ctx.thorough else 600, 5 if ctx.thorough else 4))
     seen, uniq = set(), []
     for c in cases:
         if c not in seen:
